@@ -2,7 +2,7 @@
 import json, os
 from vf.core import ToolError
 
-WR = '{"none","CREATE","MERGE","SET","SETLBL","REMOVE","DELETE","DETACH","FOREACH","CRINDEX","CRCONS","DRINDEX","CRVEC","CRHIER","DRHIER"}'
+WR = '{"none","CREATE","MERGE","SET","SETLBL","REMOVE","DELETE","DETACH","FOREACH","SETW","CREATEW","CRINDEX","CRCONS","DRINDEX","CRVEC","CRHIER","DRHIER"}'
 WRAPS = '{"plain", "padded", "fence", "fence0", "prosefence", "proselines", "openfence", "inline"}'
 
 GEN = """SPECIFICATION Spec
